@@ -2,7 +2,7 @@
 # tools/reverify_seed.sh <seed dir name>: re-confirm a kept seed against /repo's current HEAD in a fresh scratch worktree
 S=/verif/seeded/$1; WT=/tmp/reverify_$1
 git -C /repo worktree add -q --detach $WT HEAD || exit 9
-run_demo() { ( cd $WT && PYTHONPATH=$WT:/tmp/mut timeout 900 /venv/bin/python $S/demo.py > /tmp/reverify_$1.out 2>&1; echo $? ); }
+run_demo() { ( cd $WT && PYTHONPATH=$WT:/verif/tools/shim timeout 900 /venv/bin/python $S/demo.py > /tmp/reverify_$1.out 2>&1; echo $? ); }
 A=$(run_demo)
 ( cd $WT && git apply $S/patch.diff ) || { echo "$1: patch does not apply"; git -C /repo worktree remove --force $WT; exit 9; }
 T=$(cd $WT && /venv/bin/python -m pytest -q -p no:cacheprovider --timeout=900 --continue-on-collection-errors 2>&1 | tail -1)
